@@ -610,3 +610,41 @@ func VC_C07_retry_after_rejected() {
 	verifAssert(vSvcA == nil, "C07.retry.reset-restores")
 	verifReached("C07.retry")
 }
+
+// VC_C07_retained_method_handle: the per-method handle Interface(&v).Method(m).As(f) is
+// kept across a Cancel of that handle (or a Reset of the builder) and stubbed again: the
+// method reaches the new stub (its rows, its conditions), not the As placeholder.
+func VC_C07_retained_method_handle() {
+	vEnv()
+	stub.VerifResetMmap()
+	vSvcA = nil
+	t := reflect.TypeOf(&vSvcA).Elem()
+	b := Create()
+	h := b.Interface(&vSvcA).Method("Alpha").As(vCbAlpha)
+	r1, r2, c := verifInt("r1"), verifInt("r2"), verifInt("c")
+	h.Return(r1)
+	if verifBool("resetBuilder") {
+		b.Reset()
+	} else {
+		h.Cancel()
+	}
+	verifAssert(vSvcA == nil, "C07.retained-handle.undone-in-between")
+	conditional := verifBool("conditional")
+	if conditional {
+		h.When(c).Return(r2)
+	} else {
+		h.Return(r2)
+	}
+	verifAssert(vSvcA != nil, "C07.retained-handle.variable-holds-the-mock-again")
+	if vSvcA != nil {
+		f, recv, notImpl := vDispatch(unsafe.Pointer(&vSvcA), vSlotOf(t, "Alpha"), "C07.retained-handle")
+		verifAssert(!notImpl && f != nil, "C07.retained-handle.method-mocked")
+		if !notImpl && f != nil {
+			got, p := vCall07(f, recv, c)
+			verifAssert(!p && got == r2, "C07.retained-handle.new-stub-delivered")
+		}
+	}
+	b.Reset()
+	verifAssert(vSvcA == nil, "C07.retained-handle.reset-restores")
+	verifReached("C07.retained-handle")
+}
